@@ -180,6 +180,34 @@ def relation_sweep(ip, rng):
                 if st.shape != (2, 3) or not _same(st[:, i], one):
                     bad.append(("brightest_pixel:stack-vs-frame:fraction-tie", dict(shape=[ny, nx], fraction=float(frac), stack=st[:, i].tolist(), single=one.tolist())))
                     return bad, n
+        # the same stack in other memory layouts (a .T of an (x, y, t) cube, Fortran order, a swapaxes view), with thresholds
+        for label, st_ in (("transposed-xyt-cube", np.ascontiguousarray(frames.T).T), ("fortran-order", np.asfortranarray(frames)),
+                           ("swapaxes-view", np.ascontiguousarray(frames.swapaxes(1, 2)).swapaxes(1, 2))):
+            for kw in (dict(threshold=0.3), dict(threshold=0.0, min_threshold=4.0), dict(threshold=0.5, min_threshold=2.0)):
+                ref_ = np.asarray(ip.centre_of_gravity(frames.copy(), **kw), float)
+                got_ = np.asarray(ip.centre_of_gravity(st_, **kw), float)
+                n += 1
+                if got_.shape != ref_.shape or not np.allclose(got_, ref_, rtol=0, atol=1e-12, equal_nan=True):
+                    bad.append(("centre_of_gravity:stack-vs-frame:threshold:memory-layout", dict(layout=label, shape=[ny, nx], kw=kw)))
+                    return bad, n
+            bp_ref = np.asarray(ip.brightest_pixel(frames.copy(), 0.3), float)
+            if not np.allclose(np.asarray(ip.brightest_pixel(st_, 0.3), float), bp_ref, rtol=0, atol=1e-12):
+                bad.append(("brightest_pixel:stack-vs-frame:memory-layout", dict(layout=label, shape=[ny, nx])))
+                return bad, n
+        # correlation centroid: a frame alone and the same frame inside a stack, for every padding (extended spot on a background)
+        if ny == nx or True:
+            yy, xx = np.indices((ny, nx))
+            spot = 2.0 + 5.0 * np.exp(-((xx - nx / 3.0) ** 2 + (yy - ny / 1.7) ** 2) / 6.0) + 0.01 * frames[0]
+            refim = 1.0 + np.exp(-((xx - nx / 2.0) ** 2 + (yy - ny / 2.0) ** 2) / 5.0)
+            for pad in (1, 2, 3):
+                for th in (0.0, 0.2):
+                    one = np.asarray(ip.correlation_centroid(spot.copy(), refim.copy(), threshold=th, padding=pad), float).ravel()
+                    stk = np.asarray(ip.correlation_centroid(np.array([spot, frames[1], spot]), refim.copy(), threshold=th, padding=pad), float)
+                    n += 1
+                    if stk.shape != (2, 3) or not np.allclose(stk[:, 0], one, rtol=0, atol=1e-10) or not np.allclose(stk[:, 2], one, rtol=0, atol=1e-10):
+                        bad.append(("correlation_centroid:stack-vs-frame:padding", dict(shape=[ny, nx], padding=pad, threshold=th, single=one.tolist(),
+                                                                                       in_stack=stk[:, 0].tolist())))
+                        return bad, n
         cube = rng.integers(1, 30, size=(2, 3, ny, nx)).astype(float)
         for name, f in (("centre_of_gravity", lambda a: ip.centre_of_gravity(a)), ("quadCell", None)):
             if f is None:
